@@ -196,6 +196,10 @@ FINDINGS = {'KF-C15-SHARED': f_shared, 'KF-C15-ACC': f_acc, 'KF-C15-CHORD': f_ch
 
 
 def run(ctx):
+    # one long score (tree depth == number of rows): the call must not depend on the size of the document
+    if ctx.shard == 0:
+        ctx.check_all([{'doc': D.long_document(1100 + 37 * (ctx.seed % 11), ctx.seed), 'interval': 'M2', 'dir': 'up', 'prof': 'long'},
+                       {'doc': D.long_document(1250, ctx.seed + 1, with_text=False), 'interval': 'P5', 'dir': 'down', 'prof': 'long'}], check)
     n = 250 if ctx.quick else 2500
     ctx.run_hypothesis(cases('core'), check, max_examples=n, label='core')
     ctx.run_hypothesis(cases('accidentals'), check, max_examples=max(40, n // 5), salt=1, label='accidentals')
